@@ -362,6 +362,37 @@ pub fn c09_cases() -> Vec<Case> {
             }
         }
     }
+    // every possible final byte of a full inline string (C20: no reachable tag byte may collide
+    // with the niche the compiler uses for Option::None; C09: still inline, no allocation)
+    for b in 0u8..=0xBF {
+        let tail: char = if b < 0x80 { b as char } else { char::from_u32(0x80 + (b & 0x3F) as u32).unwrap() };
+        for full in [INLINE, INLINE - 1, INLINE + 1] {
+            let mut t = "f".repeat(full.saturating_sub(tail.len_utf8()));
+            t.push(tail);
+            for r in [0usize, 1, 6] {
+                if let Some(op) = route(r, &t) {
+                    let steps = vec![
+                        Step::new(0, op),
+                        Step::new(1, Op::Clone { src: 0 }),
+                        Step::new(1, Op::Pop { try_: false }),
+                        Step::new(1, Op::Push { ch: tail, try_: false }),
+                    ];
+                    out.push(case_of(steps, grid_heap(1 << 26, out.len())));
+                }
+            }
+            // the same final byte reached by editing instead of constructing
+            let head = "f".repeat(full.saturating_sub(tail.len_utf8()));
+            let steps = vec![
+                Step::new(0, Op::FromStr(head.clone())),
+                Step::new(0, Op::Push { ch: tail, try_: false }),
+                Step::new(1, Op::Clone { src: 0 }),
+                Step::new(2, Op::FromStr(head)),
+                Step::new(2, Op::InsertStr { idx: full.saturating_sub(tail.len_utf8()), s: tail.to_string(), try_: true }),
+                Step::new(0, Op::Pop { try_: false }),
+            ];
+            out.push(case_of(steps, grid_heap(1 << 26, out.len())));
+        }
+    }
     // integers: every type at every power of ten +-1, extremes, both forms
     let mut ints: Vec<(u64, u64)> = vec![(0, 0), (0, 1), (u64::MAX, u64::MAX), (0, u64::MAX), (u64::MAX >> 1, u64::MAX), (1u64 << 63, 0)];
     let mut p: u128 = 1;
